@@ -1058,6 +1058,7 @@ class Grid2D(Structure):
         padded_mask = Mask2D.all_false(
             shape_native=padded_shape,
             pixel_scales=self.mask.pixel_scales,
+            origin=self.mask.origin,
         )
 
         return Grid2D.from_mask(
